@@ -699,23 +699,48 @@ theorem hget_strip_user (raw : List (Str × Str)) (hv : rawValid raw = true) :
     hget (authnStrip (parsed raw)) hImpUser = reqUser raw := by
   simp [hget, values_strip_user raw hv, reqUser]
 
+/-- the UTF-8 check is in the source (regenerated fact) -/
+theorem rejects_non_utf8 : KG.Gen.C02.impersonationRejectsNonUTF8 = true := by decide
+
+theorem userReqs_eq (u : Str) :
+    (match splitUsername u with
+      | some (ns, name) => [ImpReq.sa ns name]
+      | none => [ImpReq.user u]) = [userCheck u] := by
+  simp only [userCheck]
+  cases splitUsername u with
+  | none => rfl
+  | some p => obtain ⟨ns, name⟩ := p; rfl
+
 /-- `buildImpersonationRequests` on what the server parsed = the checks of the specification -/
 theorem build_spec (raw : List (Str × Str)) (hv : rawValid raw = true) :
     buildImpersonationRequests (authnStrip (parsed raw)) =
       if malformed raw then none else if impersonationRequested raw then some (checks raw) else some [] := by
   simp only [buildImpersonationRequests, hget_strip_user raw hv, values_strip_group raw hv, anyExtra_strip,
-    anyExtra_parsed raw hv, extraRequests_strip, extraRequests_parsed raw hv, malformed, impersonationRequested, checks, userCheck]
+    anyExtra_parsed raw hv, extraRequests_strip, extraRequests_parsed raw hv, userReqs_eq, rejects_non_utf8, Bool.true_and]
   by_cases hu : (reqUser raw).isEmpty = true
   · by_cases hg : (reqGroups raw).isEmpty = true
     · by_cases he : (reqExtras raw).isEmpty = true
       · have h1 : reqGroups raw = [] := by simpa using hg
         have h2 : reqExtras raw = [] := by simpa using he
-        simp [hu, h1, h2]
-      · simp [hu, hg, he]
-    · simp [hu, hg]
-  · cases hs : splitUsername (reqUser raw) with
-    | none => simp [hu]
-    | some p => obtain ⟨ns, name⟩ := p; simp [hu]
+        simp [malformed, impersonationRequested, hu, h1, h2]
+      · simp [malformed, impersonationRequested, hu, hg, he]
+    · simp [malformed, impersonationRequested, hu, hg]
+  · have hc : checks raw = [userCheck (reqUser raw)] ++ (reqGroups raw).map ImpReq.group ++
+        (reqExtras raw).flatMap (fun e => e.2.map (ImpReq.extra e.1)) := rfl
+    have hu' : (reqUser raw).isEmpty = false := by simpa using hu
+    simp only [hu', Bool.not_false, Bool.and_false, Bool.false_eq_true, if_false, if_true]
+    have hm : malformed raw = !(checks raw).all refUTF8 := by simp [malformed, impersonationRequested, hu']
+    have hr : impersonationRequested raw = true := by simp [impersonationRequested, hu']
+    rw [hm, hr, hc]
+    simp only [userCheck]
+    cases hs : splitUsername (reqUser raw) with
+    | none =>
+      simp only [if_true]
+      split <;> simp_all
+    | some p =>
+      obtain ⟨ns, name⟩ := p
+      simp only [if_true]
+      split <;> simp_all
 
 /-! ## the authorisation loop -/
 
@@ -904,10 +929,10 @@ theorem impersonate_spec (raw : List (Str × Str)) (hv : rawValid raw = true) (u
   by_cases hm : malformed raw = true
   · have hr : impersonationRequested raw = true := by
       simp only [malformed, Bool.and_eq_true, Bool.or_eq_true] at hm
-      simp only [impersonationRequested, Bool.or_eq_true]
-      rcases hm.2 with h | h
-      · exact Or.inl (Or.inr h)
-      · exact Or.inr h
+      rcases hm with ⟨_, h | h⟩ | ⟨h, _⟩
+      · simp only [impersonationRequested, Bool.or_eq_true]; exact Or.inl (Or.inr h)
+      · simp only [impersonationRequested, Bool.or_eq_true]; exact Or.inr h
+      · exact h
     simp [hm, hr]
   · by_cases hr : impersonationRequested raw = true
     · have hc : checks raw = userCheck (reqUser raw) :: ((reqGroups raw).map ImpReq.group ++
@@ -1144,6 +1169,25 @@ theorem allAllowed_carried {policy : Attrs → Decision} {raw : List (Str × Str
   constructor
   · intro h a ha; have := h a ha; rwa [hc a ha] at this
   · intro h a ha; rw [hc a ha]; exact h a ha
+
+theorem refUTF8_carried (r : ImpReq) (h : refUTF8 r = true) : jsonAttrs (recordOf r) = recordOf r := by
+  have c0 : jsonCarried ([] : Str) = [] := by decide
+  have c1 : jsonCarried resServiceAccounts = resServiceAccounts := by decide
+  have c2 : jsonCarried resUsers = resUsers := by decide
+  have c3 : jsonCarried resGroups = resGroups := by decide
+  have c4 : jsonCarried resUserExtras = resUserExtras := by decide
+  have c5 : jsonCarried authenticationGroup = authenticationGroup := by decide
+  cases r <;> simp only [refUTF8, utf8Valid, Bool.and_eq_true, beq_iff_eq] at h <;>
+    simp [jsonAttrs, recordOf, c0, c1, c2, c3, c4, c5, h]
+
+/-- a well-formed impersonation only requires records a SubjectAccessReview carries unchanged -/
+theorem wellformed_recordsCarried (raw : List (Str × Str)) (hr : impersonationRequested raw = true)
+    (hm : malformed raw = false) : recordsCarried raw = true := by
+  simp only [malformed, hr, Bool.true_and, Bool.or_eq_false_iff, Bool.not_eq_false'] at hm
+  have hall := hm.2
+  simp only [List.all_eq_true] at hall
+  simp only [recordsCarried, requiredRecords, List.all_map, List.all_eq_true, Function.comp_def, beq_iff_eq]
+  exact fun r hr' => refUTF8_carried r (hall r hr')
 
 /-! ## small facts used by the property theorems -/
 
